@@ -57,9 +57,9 @@ CLAIMED["C01"] = dict(
           "length bound that the validation algorithm (WasmValidate.tla) admits - including unreachable code - plus ALU vectors over boundary operands and random longer bodies, and "
           "executes each on the reference for 4 argument vectors. Each program is assembled and run through parse/validate/compile/run of the real engine under ValidationConfig V0/V1 x "
           "{no metering, cost V0, cost V1}; result value, trap-ness, final memory (which includes the globals via a wrapper function) must equal the reference. The four recorded conformance "
-          "defects (D1-D5) are attributed only through their root-cause predicates evaluated on the reference run (CompileModel.tla) and pinned witnesses are run every time."),
+          "defects (D1-D6) are attributed only through their root-cause predicates evaluated on the reference run (CompileModel.tla) and pinned witnesses are run every time."),
     note=("Bounded: one module template (4 functions, 2 globals, 1-2 pages, 4-entry table), bodies of length <= 4-7 per alphabet exhaustively and <= 14-24 randomly; i64 operands from boundary classes. "
-          "A different defect that only shows on runs where a D1/D2/D4/D5 hazard predicate also holds would be attributed to the recorded finding (DESIGN 3.6). Trap classes are compared as trap-ness only. "
+          "A different defect that only shows on runs where a D1/D2/D4/D5/D6 hazard predicate also holds would be attributed to the recorded finding (DESIGN 3.6). Trap classes are compared as trap-ness only. "
           "Trusted: TLC, checks/wasmasm.py, harness, shims; the H2 assertions make out-of-bounds accesses deterministic panics."),
     ref="4 C01")
 CLAIMED["C02"] = dict(
@@ -236,13 +236,14 @@ CLAIMED["C11"] = dict(
 
 CLAIMED["C08"] = dict(
     engine="base",
-    technique="TLA+ state machine IdIssuance (request with chosen revokers and threshold -> issuance -> credential creation -> chain verification under perturbations / anonymity revocation by subsets; limits and threshold meaning as invariants checked by TLC); one behaviour per transition replayed end to end on the identity library with real keys",
+    technique="TLA+ state machine IdIssuance (request with chosen revokers and threshold -> issuance -> credential creation -> chain verification under perturbations / anonymity revocation by subsets (public identity credential and PRF key) / identity recovery requests under perturbations; limits and threshold meaning as invariants checked by TLC); one behaviour per transition replayed end to end on the identity library with real keys",
     text=("IdIssuance.tla is the life cycle of an identity: the holder requests an identity object (version 0 with initial account, version 1 without) naming a subset of the provider's anonymity revokers and a threshold, "
           "creates a credential for a counter in {0, 1, max, max+1} revealing a subset of attributes for a new or an existing account, the chain verifies it (accepted iff the counter is within max_accounts and nothing "
           "was altered) and subsets of the chosen revokers decrypt their shares (the public identity credential is reconstructed iff the subset reaches the threshold). Every transition of the graph is a behaviour replayed "
           "with fresh holder secrets: generate_pio(_v1), verify_credentials(_v1), verify_initial_cdi, create_credential, verify_cdi with single-bit flips spread over the credential's encoding, another provider, revoker key, "
-          "global context, account address or expiry, swapped revoker data, and reveal_id_cred_pub over the decrypted shares."),
-    note=("Two attributes per identity; PRF-key reconstruction and identity-object versions beyond the deployment path are not exercised; creation with a counter above the limit may succeed in the library (the chain must "
+          "global context, account address or expiry, swapped revoker data, reveal_id_cred_pub over the decrypted shares, reveal_prf_key over the PRF key shares decrypted from the identity request (sampled: eight 32-bit "
+          "discrete logarithms per share) and generate_id_recovery_request / validate_id_recovery_request with altered provider identity, provider key, chain parameters, timestamp, public identity credential or proof."),
+    note=("Two attributes per identity; PRF-key reconstruction is sampled (28 behaviours quick, 160 thorough); creation with a counter above the limit may succeed in the library (the chain must "
           "then reject - checked)."),
     ref="4 C08")
 
